@@ -617,6 +617,7 @@ static void runCost(const std::vector<Entry> &reg, const json &job, vt::Trace &t
     const ob::State *startState = pd->getStartState(0);
     const ob::State *goalState = pr.goal->getState();
     double straight = pr.space->distance(startState, goalState);
+    double lb = 0;
     int sense = 1;
     std::string oname = job["objective"];
     ob::OptimizationObjectivePtr obj = makeObjective(oname, pr.si, straight, sense);
@@ -627,13 +628,48 @@ static void runCost(const std::vector<Entry> &reg, const json &job, vt::Trace &t
                  {"W", w.W}, {"H", w.H}, {"obst", job["obst"]}, {"start", job["start"]}, {"goal", job["goal"]},
                  {"seed", seed}, {"exactCost", job.value("exactCost", false)}});
     // admissible lower bound for the query
-    double lb;
     if (oname == "length" || oname == "length-thr")
         lb = std::max(0.0, straight - pr.threshold);
     else
         lb = obj->motionCostHeuristic(startState, goalState).value();
-    for (auto &kk : job["budgets"])
+    json budgets = job["budgets"];
+    // optional second phase on the SAME planner instance: clearQuery(), then a different (usually more
+    // expensive) query on the same definition - what a planner kept from the first query must not leak
+    // into the costs it reports for the second
+    if (job.contains("requery"))
+        budgets.push_back("requery");
+    for (auto &kk : budgets)
     {
+        if (kk.is_string())
+        {
+            p->clearQuery();
+            pd->clearSolutionPaths();
+            pd->clearStartStates();
+            ob::ScopedState<> s2(pr.space), g2(pr.space);
+            setCell(pr.space, s2.get(), w, job["requery"]["start"], gdx, gdy);
+            setCell(pr.space, g2.get(), w, job["requery"]["goal"], sdx, sdy);
+            pd->addStartState(s2);
+            auto gs = std::make_shared<ob::GoalState>(pr.si);
+            gs->setState(g2);
+            if (thr > 0)
+                gs->setThreshold(thr);
+            pd->setGoal(gs);
+            pr.goal = gs;
+            pr.threshold = gs->getThreshold();
+            p->setProblemDefinition(pd);
+            startState = pd->getStartState(0);
+            goalState = gs->getState();
+            straight = pr.space->distance(startState, goalState);
+            if (oname == "length" || oname == "length-thr")
+                lb = std::max(0.0, straight - pr.threshold);
+            else
+                lb = obj->motionCostHeuristic(startState, goalState).value();
+            tr.emit(json{{"e", "Requery"}, {"planner", e->name}, {"objective", oname}, {"start", job["requery"]["start"]},
+                         {"goal", job["requery"]["goal"]}});
+            for (auto &k2 : job["requery"]["budgets"])
+                budgets.push_back(k2);
+            continue;
+        }
         Budget b;
         b.k = kk.get<long>();
         b.pdef = pd.get();
